@@ -1,0 +1,82 @@
+//go:build verif
+
+// Machine-checked contracts (read by /verif/bin/fsv; comment-only, guarded by the verif tag).
+// C06: the bulkhead never exceeds its limit and never loses permits.
+// tokens(b.semaphore) = permits taken minus permits returned by the verified thread; the global bound is
+// sum over threads of tokens = len(semaphore) <= cap(semaphore) = maxConcurrency (Go channel semantics).
+
+package bulkhead
+
+//@ frozen config.maxConcurrency, config.maxWaitTime, config.onFull, bulkhead.config, bulkhead.semaphore, executor.BaseExecutor, executor.bulkhead
+
+// Environment (assumed): context accessors are observers; Err() is non-nil once Done() has been observed
+// (the code calls Err() only after receiving from Done(): the 'assume' clauses below state exactly that).
+//@ extfunc context.Background
+//@   modifies nothing
+//@   ensures result != nil && result == background()
+//@ extfunc context.Context.Done
+//@   modifies nothing
+//@ extfunc context.Context.Err
+//@   modifies nothing
+
+//@ func (*config).Build
+//@   requires c != nil
+//@   ensures [C06.capacity] result != nil && chancap(asref(result, *bulkhead).semaphore) == c.maxConcurrency && tokens(asref(result, *bulkhead).semaphore) == 0 && asref(result, *bulkhead).config == c
+//@   modifies nothing
+
+//@ func (*bulkhead).TryAcquirePermit
+//@   requires b != nil
+//@   ensures [C06.try] result == (tokens(b.semaphore) == old(tokens(b.semaphore)) + 1)
+//@   ensures [C06.try.refused] !result ==> tokens(b.semaphore) == old(tokens(b.semaphore))
+//@   modifies tokens(b.semaphore)
+
+//@ func (*bulkhead).ReleasePermit
+//@   requires b != nil
+//@   ensures [C06.release] tokens(b.semaphore) == old(tokens(b.semaphore)) - 1
+//@   modifies tokens(b.semaphore)
+
+//@ func (*bulkhead).AcquirePermit
+//@   requires b != nil
+//@   assume ret(ite(ctx == nil, background(), ctx).Err, 1) != nil
+//@   ensures [C06.acquire] (result == nil) ==> tokens(b.semaphore) == old(tokens(b.semaphore)) + 1
+//@   ensures [C06.acquire.cancelled] (result != nil) ==> tokens(b.semaphore) == old(tokens(b.semaphore))
+//@   havoc
+//@   modifies tokens(b.semaphore), calls(ctx.Done), calls(ctx.Err), calls(background().Done), calls(background().Err)
+
+//@ func (*bulkhead).AcquirePermitWithMaxWait
+//@   requires b != nil
+//@   assume ret(ite(ctx == nil, background(), ctx).Err, 1) != nil
+//@   ensures [C06.acquirewait] (result == nil) ==> tokens(b.semaphore) == old(tokens(b.semaphore)) + 1
+//@   ensures [C06.acquirewait.refused] (result != nil) ==> tokens(b.semaphore) == old(tokens(b.semaphore))
+//@   ensures [C06.acquirewait.errors] result != nil ==> result == ErrFull || ncalls(ite(ctx == nil, background(), ctx).Err) == 1
+//@   havoc
+//@   modifies tokens(b.semaphore), calls(ctx.Done), calls(ctx.Err), calls(background().Done), calls(background().Err)
+
+//@ func (*executor).PreExecute
+//@   requires e != nil && e.bulkhead != nil && e.config != nil && exec != nil
+//@   ext ctx := reti(exec.Context, 1)
+//@   ensures [C06.pre.admitted] result == nil ==> tokens(e.semaphore) == old(tokens(e.semaphore)) + 1 && ncalls(e.onFull) == 0
+//@   ensures [C06.pre.refused] result != nil ==> tokens(e.semaphore) == old(tokens(e.semaphore)) && result.Error != nil && result.Done && !result.Success
+//@   ensures [C16.bulkhead.onfull] result != nil && e.onFull != nil ==> ncalls(e.onFull) == b2i(ufb("errors.Is", result.Error, ErrFull))
+//@   havoc
+//@   modifies tokens(e.semaphore), calls(exec.Context), calls(e.onFull), calls(ctx.Done), calls(ctx.Err), calls(background().Done), calls(background().Err)
+
+//@ func (*executor).PostExecute
+//@   requires e != nil && e.bulkhead != nil
+//@   ensures [C06.post.release_once] tokens(e.semaphore) == old(tokens(e.semaphore)) - 1 && result_0 == result
+//@   modifies tokens(e.semaphore)
+
+// Through the real template: permits are conserved on every path and the function runs only with a permit.
+//@ func lemmaApply
+//@   dyntype policy.Executor *executor
+//@   inlinecalls (*BaseExecutor).Apply$1
+//@   requires e != nil && e.BaseExecutor != nil && e.bulkhead != nil && e.config != nil && innerFn != nil
+//@   requires typeis(e.Executor, *executor) && asref(e.Executor, *executor) == e
+//@   requires typeis(exec, *failsafe.execution)
+//@   ext ctx := reti(exec.Context, 1)
+//@   ensures [C06.conservation] tokens(e.semaphore) == old(tokens(e.semaphore))
+//@   ensures [C06.at_most_once] ncalls(innerFn) <= 1
+//@   ensures [C06.refused_skips_inner] ncalls(innerFn) == 0 ==> result.Error != nil && !result.Success
+//@   ensures [C06.admitted_returns_inner] ncalls(innerFn) == 1 ==> result == ret(innerFn, 1) && arg(innerFn, 1, 0) == exec
+//@   havoc
+//@   modifies calls(innerFn), calls(exec.Context), calls(e.onFull), calls(ctx.Done), calls(ctx.Err), calls(background().Done), calls(background().Err)
